@@ -83,6 +83,11 @@ def _lower_args(reg, c, raw):
     from . import native
     args = {}
     cc = reg.class_contract_of(c)
+    if c.params_from_ghosts is not None:
+        ghosts = {k: native.lower(v) for k, v in raw.items() if k.startswith('ghost_')}
+        args = dict(c.params_from_ghosts(ghosts))
+        args.update(ghosts)
+        return args, None
     for k, v in raw.items():
         x = native.lower(v)
         if k == 'self' and cc is not None and cc.rebuild is not None and not c.is_init:
@@ -641,6 +646,9 @@ def reg_assumptions(reg, results):
                             f'{q[8:]}'])
                 continue
             cc = reg.fns.get(q)
+            if cc is not None and cc.mode == 'contract' and cc.inline_at_calls:
+                out.append([f'{q} is inlined at call sites (its own contract is verified as a unit; '
+                            f'it speaks about ghost parameters)'])
             if cc is not None and cc.mode == 'transparent':
                 out.append([f'{q} is inlined (transparent), not abstracted by a contract'])
             if cc is not None and cc.mode == 'contract' and not cc.verify:
